@@ -24,7 +24,7 @@ func init() {
 	for _, p := range []string{"C06", "C15"} {
 		runner.Register(p, runner.Scenario{Name: "federation", Options: opts, Body: fedBody})
 		runner.Register(p, runner.Scenario{Name: "federation-preempt", Options: func(string) simrt.Options {
-			return simrt.Options{MaxSteps: 400000, RotateMaps: true, ParkPermille: 5, PausePermille: 4, MapPausePermille: 200}
+			return simrt.Options{MaxSteps: 400000, RotateMaps: true, ParkPermille: 5, PausePermille: 4, MapPausePermille: 300, SpawnPausePermille: 100}
 		}, Body: fedBody})
 	}
 }
